@@ -9,9 +9,9 @@ cd $WT
 git diff -- sqlglot > /tmp/_cur.diff
 if ! diff -q /tmp/_cur.diff _seed/patch.diff >/dev/null; then echo "NOTE: worktree diff differs from patch.diff; re-applying"; git checkout -- sqlglot; git apply _seed/patch.diff || exit 9; fi
 /venv/bin/python _seed/demo.py >/tmp/_demo_with.txt 2>&1; W=$?
-git stash -q -- sqlglot
+git apply -R _seed/patch.diff   # (not git stash: the stash is shared by all worktrees)
 /venv/bin/python _seed/demo.py >/tmp/_demo_without.txt 2>&1; WO=$?
-git stash pop -q
+git apply _seed/patch.diff
 echo "demo exit with change: $W   without change: $WO"
 T=$(/venv/bin/python -m pytest -q -p no:cacheprovider -n 8 --timeout=900 2>&1 | tail -1)
 echo "tests with change: $T"
